@@ -398,3 +398,47 @@ def run(index, rep, tier):
     with rep.section("R12.4"):
         ndef = shared_mutable_rule(index, rep, "R12.4", COPY_MODULES[:-1] + [DM + "datasetmodel"])
         rep.floor("R12.4", "defaults and class-level containers examined", 200, ndef)
+
+    # ---- R12.8 a copy constructor keeps what it copied
+    with rep.section("R12.8"):
+        rep.rule("R12.8", "a copy constructor keeps what it copied: in a subclass of a class whose __init__ can adopt a deep copy of another object (_clone_from replaces self.__dict__), no statement after the base-class __init__ unconditionally overwrites an attribute with a freshly made value - on the copy-construction route that throws the copied state away")
+        cloners = {k.qualname for k in index.classes.values() if "__init__" in k.methods and any(call_name(c) == "_clone_from" for c in calls_in(k.methods["__init__"].node))}
+        rep.floor("R12.8", "classes whose constructor can clone", 3, len(cloners))
+        nsub = 0
+        for k in sorted(index.classes.values(), key=lambda c: c.qualname):
+            if k.module.name not in COPY_MODULES or k.qualname in cloners or "__init__" not in k.methods:
+                continue
+            if not any(b.qualname in cloners for b in index.mro(k) if b.qualname != k.qualname):
+                continue
+            init = k.methods["__init__"]
+            g = cfg_of(init)
+            params = set(init.all_params) - {"self"}
+            nsub += 1
+            base_calls = [nd for nd in g.nodes if any(call_name(c) == "__init__" for c in node_calls(nd))]
+            for bc in base_calls:
+                for nd in g.reach([t for lab, t in bc.succ if lab != "e"], follow_exc=False):
+                    if not (nd.kind == "stmt" and isinstance(nd.ast, ast.Assign) and isinstance(nd.ast.targets[0], ast.Attribute) and norm(nd.ast.targets[0].value) == "self"):
+                        continue
+                    # unconditional: every path from the base call to the exit passes it
+                    ok_uncond, _w = g.must_pass(bc, lambda x, nd=nd: x is nd)
+                    if not ok_uncond:
+                        # `if v is not None: self.x = v` depends on nothing but the value itself: as good as unconditional
+                        pm_ = parent_map(init.node)
+                        par_ = pm_.get(nd.stmt)
+                        vn = nd.ast.value.id if isinstance(nd.ast.value, ast.Name) else None
+                        if not (isinstance(par_, ast.If) and vn and {x.id for x in ast.walk(par_.test) if isinstance(x, ast.Name)} == {vn} and pm_.get(par_) is init.node):
+                            continue
+
+                    def fresh(e, depth=0):
+                        if isinstance(e, ast.Constant) or (isinstance(e, (ast.List, ast.Dict, ast.Set, ast.Tuple)) and not any(True for _ in ast.iter_child_nodes(e) if not isinstance(_, ast.expr_context))):
+                            return True
+                        if isinstance(e, ast.Name) and e.id not in params and depth < 2:
+                            ds = [a.value for a in walk_no_nested(init.node) if isinstance(a, ast.Assign) and isinstance(a.targets[0], ast.Name) and a.targets[0].id == e.id]
+                            return bool(ds) and any(fresh(d, depth + 1) for d in ds)
+                        if isinstance(e, ast.Call) and not any(isinstance(x, ast.Name) and (x.id in params or x.id == "self") for x in ast.walk(e)):
+                            return True
+                        return False
+                    v = nd.ast.value
+                    rep.check(not fresh(v), "R12.8", init.qualname, "copied attribute overwritten after the base constructor: %s" % norm_stmt(nd.stmt)[:60], fn_where(init, nd.stmt), "%s: `%s` does not overwrite copied state with a fresh value" % (k.name, norm_stmt(nd.stmt)[:50]),
+                              "%s runs `%s` unconditionally after the base-class constructor: when the object is built as a copy of another one (%s(other), clone, export_character_indices ...) the base constructor has already adopted the copied attributes, and this statement replaces them by a fresh value - a standard matrix over the alphabet a/b/c comes out of a copy with the default 0-9 alphabet while its cells still hold a/b/c states" % (init.qualname, norm_stmt(nd.stmt)[:60], k.name))
+        rep.floor("R12.8", "subclass constructors of cloning classes", 2, nsub)
